@@ -7,9 +7,10 @@
     Every Go operation that could panic for ANOTHER reason (tok.txt[0], values[i]) is an
     option-valued operation whose [None] becomes [PPanic]. Loops take the fuel [F].
 
-    MAIN definitions = the behaviour after the fixes F8 (discardLine) and F9 (BS_ separators),
-    see /verif/fixes; the code as it was is kept as [discard_line_old], [parse_bit_timing_old],
-    [parse_old] (refuted in Properties/C04.v). *)
+    MAIN definitions = the behaviour after the fixes F8 (discardLine), F9 (BS_ separators) and
+    F11 (signal loop of BO_ must not fail on a non-identifier), see /verif/fixes; the code as it was
+    is kept as [discard_line_old], [parse_bit_timing_old], [signals_loop_old], [parse_old]
+    (refuted in Properties/C04.v and C12.v). *)
 From Coq Require Import ZArith List Bool String.
 From CanVerif Require Import Dbc.Ast Dbc.Scanner Dbc.DecFloat.
 Import ListNotations.
@@ -526,8 +527,24 @@ Section WithOracle.
            sg_offset := offset; sg_factor := factor; sg_min := mn; sg_max := mx;
            sg_unit := unit_; sg_receivers := receivers |}.
 
-  (** "for p.peekToken().typ != EOF && p.peekKeyword() == SG_ { parse a signal }" *)
+  (** the signal loop of MessageDef.parseFrom after fix F11:
+      "for p.peekToken().typ == Ident && p.peekKeyword() == SG_ { parse a signal }" *)
   Fixpoint signals_loop (f : nat) (racc : list signal_def) : M (list signal_def) :=
+    match f with
+    | O => out_of_fuel
+    | S f' =>
+      plet t <- peek_token;
+      if negb (t_typ t =? TIdent) then ret (rev racc)
+      else
+        plet k <- peek_keyword;
+        if bytes_eqb k kw_signal then plet s <- parse_signal; signals_loop f' (s :: racc)
+        else ret (rev racc)
+    end.
+
+  (** as it was (F11): "for p.peekToken().typ != EOF && p.peekKeyword() == SG_": peekKeyword raises
+      "expected ident" INSIDE the message definition when a complete message is followed by a token
+      that is not an identifier, so the complete message is never appended to Defs() *)
+  Fixpoint signals_loop_old (f : nat) (racc : list signal_def) : M (list signal_def) :=
     match f with
     | O => out_of_fuel
     | S f' =>
@@ -535,20 +552,23 @@ Section WithOracle.
       if t_typ t =? EOF then ret (rev racc)
       else
         plet k <- peek_keyword;
-        if bytes_eqb k kw_signal then plet s <- parse_signal; signals_loop f' (s :: racc)
+        if bytes_eqb k kw_signal then plet s <- parse_signal; signals_loop_old f' (s :: racc)
         else ret (rev racc)
     end.
 
-  Definition parse_message : M def :=
+  Definition parse_message_with (signals : M (list signal_def)) : M def :=
     plet kw <- p_keyword kw_message;
     plet id <- p_message_id;
     plet name <- p_identifier;
     p_token c_colon ;;
     plet size <- p_uint;
     plet tx <- p_identifier;
-    plet sigs <- signals_loop F [];
+    plet sigs <- signals;
     ret (DMessage {| m_pos := t_pos kw; m_id := id; m_name := name; m_size := size;
                      m_transmitter := tx; m_signals := sigs |}).
+
+  Definition parse_message : M def := parse_message_with (signals_loop F []).
+  Definition parse_message_old : M def := parse_message_with (signals_loop_old F []).
 
   Definition parse_signal_value_type : M def :=
     plet kw <- p_keyword kw_signal_value_type;
@@ -718,13 +738,13 @@ Section WithOracle.
 
   (** -------------------------------------------------------------- Parse() *)
 
-  (** the keyword switch of Parse, parameterised by the two definitions that have an old variant *)
-  Definition parse_def_with (bit_timing unknown : M def) (defs : list def) (kw : bytes) : M def :=
+  (** the keyword switch of Parse, parameterised by the three definitions that have an old variant *)
+  Definition parse_def_with (bit_timing unknown message : M def) (defs : list def) (kw : bytes) : M def :=
     if bytes_eqb kw kw_version then parse_version
     else if bytes_eqb kw kw_bit_timing then bit_timing
     else if bytes_eqb kw kw_new_symbols then parse_new_symbols
     else if bytes_eqb kw kw_nodes then parse_nodes
-    else if bytes_eqb kw kw_message then parse_message
+    else if bytes_eqb kw kw_message then message
     else if bytes_eqb kw kw_signal then (plet s <- parse_signal; ret (DSignal s))
     else if bytes_eqb kw kw_envvar then parse_envvar
     else if bytes_eqb kw kw_comment then parse_comment
@@ -738,7 +758,7 @@ Section WithOracle.
     else if bytes_eqb kw kw_envvar_data then parse_envvar_data
     else unknown.
 
-  Fixpoint parse_loop_with (bit_timing unknown : M def) (f : nat) (defs : list def) (st : pstate) : outcome :=
+  Fixpoint parse_loop_with (bit_timing unknown message : M def) (f : nat) (defs : list def) (st : pstate) : outcome :=
     match f with
     | O => OutOfFuel
     | S f' =>
@@ -746,8 +766,8 @@ Section WithOracle.
       | POk t st1 =>
         if t_typ t =? EOF then Ok defs
         else
-          match (plet kw <- peek_keyword; parse_def_with bit_timing unknown defs kw) st1 with
-          | POk d st2 => parse_loop_with bit_timing unknown f' (defs ++ [d]) st2
+          match (plet kw <- peek_keyword; parse_def_with bit_timing unknown message defs kw) st1 with
+          | POk d st2 => parse_loop_with bit_timing unknown message f' (defs ++ [d]) st2
           | PErr p k => Err p k defs
           | PPanic => Panic
           | PFuel => OutOfFuel
@@ -762,11 +782,11 @@ Section WithOracle.
 
   (** NewParser(data).Parse() with Defs() *)
   Definition parse (src : bytes) : outcome :=
-    parse_loop_with parse_bit_timing parse_unknown F [] (p_init src).
+    parse_loop_with parse_bit_timing parse_unknown parse_message F [] (p_init src).
 
-  (** the parser before the fixes F8 and F9 *)
+  (** the parser before the fixes F8, F9 and F11 *)
   Definition parse_old (src : bytes) : outcome :=
-    parse_loop_with parse_bit_timing_old parse_unknown_old F [] (p_init src).
+    parse_loop_with parse_bit_timing_old parse_unknown_old parse_message_old F [] (p_init src).
 
 End WithOracle.
 
